@@ -12,12 +12,55 @@ def _field_idx(prog, adt, name):
     return [i for i, f in enumerate(a["variants"][0]["fields"]) if f["name"] == name][0]
 
 
+def builder_drop_order(chk, prog, rule="builder-drop-order"):
+    """What dropping a slice builder does is its drop glue: its own Drop impl (if any), then its fields in declaration
+    order. Whatever the pieces are - one impl doing both jobs today, a guard field and the inner block tomorrow - no step
+    that releases the block (reaches GcPtr::dealloc) may come before a step that destructs initialised parts (calls
+    ptr::drop_in_place on them): the destructors would run on freed memory."""
+    from gcv.interp import Interp
+    prog.edges()
+    ip = Interp(prog, prims={}, strict=False)
+    n = 0
+    for bt in (SB, "slice::GcSliceBuilder", "slice::GcStrBuilder"):
+        tids = [i for i, t in enumerate(prog.types) if t.get("k") == "adt" and t.get("def") == bt]
+        if not tids:
+            continue
+        plan = ip.drop_plan(tids[0])
+        steps = []
+        for (_k, impl, path) in plan:
+            d = norm(impl)
+            reach = prog.reachable_from([d]) if d in prog.seed_n else {}
+            calls = {e.callee for e in prog.calls_from(d)} if d in prog.seed_n else set()
+            releases = "gc_ptr::GcPtr::dealloc" in reach
+            destructs = any(c and c.startswith("core::ptr::") and c.endswith("drop_in_place") for c in calls)
+            steps.append((d, path, releases, destructs))
+        n += 1
+        bad = []
+        released_by = None
+        for (d, path, rel, des) in steps:
+            if des and released_by is not None and not rel:
+                bad.append("`%s` (field path %s) destructs initialised parts after `%s` has released the block" % (d, list(path), released_by))
+            if rel and not des and released_by is None:
+                released_by = d
+            elif rel and des:
+                released_by = released_by or None      # one impl doing both: its internal order is the term rule's business
+        chk.inst(rule, bt, not bad, detail="; ".join(bad) + " - fields are dropped in declaration order" if bad else "",
+                 sample={"type": bt, "drop_glue_steps": [{"impl": d, "field_path": list(p), "releases": r, "destructs": ds}
+                                                         for (d, p, r, ds) in steps]})
+    chk.floor("slice-builder-types-with-drop-glue", n, 1)
+
+
 def slice_builder_unwind(chk, prog):
     prog.edges()
+    builder_drop_order(chk, prog)
     if not chk.anchor(WSW, WSW in prog.seed_n) or not chk.anchor(SB_DROP, SB_DROP in prog.seed_n):
         return
     b = prog.bodies[prog.seed_n[WSW][0]]
-    il = _field_idx(prog, SB, "init_length")
+    try:
+        il = _field_idx(prog, SB, "init_length")
+    except (IndexError, KeyError, TypeError):
+        chk.anchor(SB + ".init_length", False)
+        return
     cb = [i for i, bb in enumerate(b["blocks"]) if bb["t"] and bb["t"]["k"] == "call" and not bb["t"]["f"].get("indirect")
           and norm(bb["t"]["f"]["def"]).startswith("core::ops::function::Fn") and not bb["t"]["f"].get("resolved")]
     wr = [i for i, bb in enumerate(b["blocks"]) if bb["t"] and bb["t"]["k"] == "call" and not bb["t"]["f"].get("indirect")
